@@ -5,6 +5,7 @@ use std::collections::HashMap;
 use crate::gen::bigram::BigramModel;
 use crate::gen::dict::{CharDef, ConnSpec, DictSpec, LexRow, MatrixSpec};
 
+pub mod chardef;
 pub mod train;
 
 // ---------------------------------------------------------------------------------------------
